@@ -50,6 +50,10 @@ func c30Scenario(name string, floorMode string, bound int, nextPerThread int) vs
 				run.floor = base + 1
 			case "far-future":
 				run.floor = base + (1 << 40)
+			case "same-ms-high-bits":
+				// a restored maximum minted in the allocator's current millisecond by a node /
+				// sequence with larger low bits (snowflake: 10 node bits + 12 sequence bits)
+				run.floor = base | 0x3FFFFF
 			}
 			var wg vsync.WaitGroup
 			for th := 0; th < 2; th++ {
@@ -127,7 +131,7 @@ func TestVerifC30(t *testing.T) {
 	n := ev.Pick(r, 2, 2)
 	var total int64
 	outcomes := 0
-	for _, mode := range []string{"below", "equal", "just-above", "far-future"} {
+	for _, mode := range []string{"below", "equal", "just-above", "far-future", "same-ms-high-bits"} {
 		st := vsched.Explore(r, c30Scenario("ids-floor-"+mode, mode, bound, n))
 		total += st.Executions
 		outcomes += st.Outcomes
